@@ -2,7 +2,7 @@
    kind = property*100 + sub-model.  [run] = what the model says the implementation must
    output on this input; [mon] = the property's monitor applied to the implementation's own
    observed output. *)
-From RainV Require Import Lib Tier Geometry SectionIO Meta Paths Wire Stree AddrList.
+From RainV Require Import Lib Tier Geometry SectionIO Meta Paths Wire Stree AddrList Cache.
 
 Definition run (kind : Z) (inp : list Z) : list Z :=
   match kind with
@@ -10,6 +10,8 @@ Definition run (kind : Z) (inp : list Z) : list Z :=
   | 202 => run_calc_blocks inp
   | 203 => run_section_io inp
   | 204 => run_create_jobs inp
+  | 301 => run_cached_read inp
+  | 302 => run_cache inp
   | 601 => run_accept inp
   | 701 => run_accept_paths inp
   | 702 => run_open_path inp
@@ -32,6 +34,8 @@ Definition mon (kind : Z) (inp obs : list Z) : bool :=
   | 202 => mon_calc_blocks inp obs
   | 203 => mon_section_io inp obs
   | 204 => mon_create_jobs inp obs
+  | 301 => mon_cached_read inp obs
+  | 302 => mon_cache inp obs
   | 601 => mon_accept inp obs
   | 701 => mon_accept_paths inp obs
   | 702 => mon_open_path inp obs
